@@ -27,7 +27,7 @@ KEYWORDS = {
     "BETWEEN", "LIKE", "TRUE", "FALSE", "REPLACE", "BEGIN", "COMMIT",
     "ROLLBACK", "SAVEPOINT", "RELEASE", "DROP", "ALTER", "INDEX", "IF",
     "TEMP", "TEMPORARY", "CONSTRAINT", "NATURAL", "OFFSET", "TRANSACTION",
-    "VACUUM", "ATTACH", "DETACH", "REINDEX", "ANALYZE", "TRIGGER",
+    "VACUUM", "ATTACH", "DETACH", "REINDEX", "ANALYZE", "TRIGGER", "RETURNING",
 }
 
 _tok_re = re.compile(
@@ -248,14 +248,73 @@ class Parser:
         return out
 
     def statement(self):
-        if self.at_kw("SELECT", "WITH"):
+        first = self.peek()[1] if self.peek()[0] == "kw" else None
+        st = self._statement()
+        try:
+            st.first_keyword = first
+        except AttributeError:
+            pass
+        return st
+
+    def _returning(self, st):
+        st.returning = []
+        if self.accept_kw("RETURNING"):
+            while True:
+                if self.at_op("*"):
+                    self.take()
+                    st.returning.append(("star",))
+                else:
+                    st.returning.append(self.expr())
+                    if self.accept_kw("AS"):
+                        self.ident()
+                if not self.accept_op(","):
+                    break
+        return st
+
+    def _statement(self):
+        if self.at_kw("WITH"):
+            # WITH ctes SELECT ... | WITH ctes INSERT / UPDATE / DELETE ...
+            save = self.i if hasattr(self, "i") else None
+            k = 0
+            depth = 0
+            # look ahead for the first top-level statement keyword after the CTE list
+            while True:
+                t = self.peek(k)
+                if t[0] == "eof":
+                    break
+                if t == ("op", "("):
+                    depth += 1
+                elif t == ("op", ")"):
+                    depth -= 1
+                elif depth == 0 and t[0] == "kw" and t[1] in ("SELECT", "INSERT", "REPLACE", "UPDATE", "DELETE") and k > 0:
+                    break
+                k += 1
+            head = self.peek(k)
+            if head[0] == "kw" and head[1] in ("INSERT", "REPLACE", "UPDATE", "DELETE"):
+                self.expect_kw("WITH")
+                ctes = []
+                while True:
+                    name = self.ident()
+                    self.expect_kw("AS")
+                    self.expect_op("(")
+                    ctes.append((name, self.select()))
+                    self.expect_op(")")
+                    if not self.accept_op(","):
+                        break
+                st = self._statement()
+                st.ctes = ctes
+                if getattr(st, "select", None) is not None:
+                    st.select.ctes = list(ctes) + list(st.select.ctes)
+                return st
+            return self.select()
+        if self.at_kw("SELECT"):
             return self.select()
         if self.at_kw("INSERT", "REPLACE"):
-            return self.insert()
+            return self._returning(self.insert())
         if self.at_kw("UPDATE"):
-            return self.update()
+            return self._returning(self.update())
         if self.at_kw("DELETE"):
-            return self.delete()
+            return self._returning(self.delete())
         if self.at_kw("PRAGMA"):
             self.take()
             name = self.ident()
